@@ -9,7 +9,7 @@ SPEC = {
                           "in_order_exactly_once", "quiescent_complete", "no_leak", "len_overflow_breaks_framing", "consts_match",
                           "send_msg_chunks_spec"],
     "translators": [translate_consts],
-    "streams": [{"name": "mux", "quick": 450, "thorough": 9000, "timeout": 3000}],
+    "streams": [{"name": "mux", "quick": 450, "thorough": 5000, "timeout": 3000}],
     "rule": "two kinds of cases. pure (2 of 3): 3..10 ops among hdr (header bytes both ways, both stacks), hdrdec (arbitrary 0..12 byte "
             "slices), wseg/wseg2 (Muxer::mux / network2 write_segment observed as raw bytes on a UnixStream pair; payload 0, 1, 7..9, "
             "255..257, 65534, 65535, random; a few 65536/65537/70000 beyond the maximum), rseg/rseg2 (Demuxer::read_segment / network2 "
